@@ -138,8 +138,8 @@ class SafeLearner(Learner):
         if no_len(std_pred) or isinstance(std_pred,str):
             #action
             std_pred = [std_pred]
-        elif len(std_pred) > 2:
-            #pmf or action
+        elif len(std_pred) > 2 or len(std_pred) == 1:
+            #pmf or action (a single offered action makes for a one item pmf)
             std_pred = [std_pred]
         elif len(std_pred) == 2:
             #pmf, action or [action,prob]
